@@ -44,6 +44,16 @@ CHECKS.update({
  "C13": ("other", "5.13", TECH_A + "; visibility facts",
    "Invariant clauses only: INV (length <= capacity, [0,length) initialised) is inductive over every safe StackVec method and friend, from every INV state, in debug and release MIR; representation private to its module. Element-wise equality with a reference sequence and ordering are NOT decided; HeapVec not analysed."),
 })
+CHECKS.update({
+ "C19": ("other", "5.19", TECH_A + "; front-end copies extracted via rustc's pretty-printer and compiled against the library",
+   "Partial. Each of the 7 copies of the shipped front-end: no panic of its own code on arbitrary bytes (loop invariants such as index <= len proven; content-dependent sites audited), the library is called on sub-slices of the input, the remainder is a sub-slice of the input, exponent saturation only when the accumulator leaves the i32 range. Grammar completeness and the value are NOT decided."),
+ "C06": ("other", "5.6", TECH_A + "; exact midpoint-digit computation",
+   "Partial. MAX_DIGITS >= longest exact midpoint expansion (computed exactly), capacity formula, and the truncation typestate of the 19-digit stage: at every exit of parse_number either many_digits is set or both iterators are exhausted. Rounding of the truncated value is NOT decided."),
+ "C18": ("other", "5.18", TECH_A + "; must-pass-through rule on the monomorphic CFG",
+   "Partial. (1) every path through round / round_nearest_tie_even consults the rounding callback; (2) post-condition of round for every significand with its top bit set and every exponent whose subnormal shift is <= 64: 0 <= exp <= INFINITE_POWER, mant <= HIDDEN_BIT_MASK, exp = INFINITE_POWER => mant = 0 (fields pack without overlap, never NaN), all shifts and mask widths in range; (3) constants. The nearest-even decision itself is NOT decided."),
+ "C12": ("other", "5.12", TECH_E + "; " + TECH_A,
+   "Partial. Failure discipline (no fallible result dropped unread), no wrapping_* limb arithmetic, every non-wrapping operator in bigint.rs/stackvec.rs proven overflow-free and every narrowing cast value-preserving or an audited half of the widening idiom (modular, under the vector invariant), 5^135 / 5^i constants exact. Exactness of carry chains is NOT decided."),
+})
 NA = [
  ("C03", "round trip is a numerical corollary of C01/C02 on three input families; it has no code of its own and no clause whose truth is in the shape of the code"),
  ("C09", "monotonicity relates the numerical results of two runs through different algorithms; no structural clause, and per-path correct rounding is not statically decidable here"),
